@@ -147,7 +147,12 @@ def run_shard(ctx):
                 if not (MIN_TS <= n <= MAX_TS):
                     continue
                 conn = rng.choice(['as ', 'to ', ''])
-                if rng.random() < 0.5:
+                rr = rng.random()
+                if rr < 0.2:
+                    # the date and the time held by names
+                    text = 'wv = %s\nmk = %s\nwv at mk %sunix' % (dt, tt, conn)
+                    cls = 'datetime-to-unix:parts-in-variables'
+                elif rr < 0.5:
                     text = 'zq = %s at %s\nzq %sunix' % (dt, tt, conn)
                     cls = 'datetime-to-unix:variable'
                 else:
